@@ -237,13 +237,12 @@ class AstMap:
         """
         if len(self.conflict_keys) > 0:
             return True
-        # The same placeholder can be recorded as a variable and as a called function
-        for key in self.symbol_table:
-            if key in self.func_table:
-                names = {symbol.id for symbol in self.symbol_table[key]}
-                names.update(symbol.id for symbol in self.func_table[key])
-                if len(names) > 1:
-                    return True
+        # The same placeholder can be recorded as a variable, as a called function and as a class
+        tables = (self.symbol_table, self.func_table, self.class_table)
+        for key in set().union(*tables):
+            names = {symbol.id for table in tables for symbol in table.get(key, [])}
+            if len(names) > 1:
+                return True
         return False
 
     def new_merged_map(self, other):
